@@ -47,7 +47,7 @@ Write three files in `_seed/` (this directory already exists):
 - `_seed/demo.py`: a script run as `PYTHONPATH=<tree> /venv/bin/python _seed/demo.py` that exits 0 on the unchanged tree and exits 1 (printing what went wrong) with your change: it demonstrates the property violation through the public API,
 - `_seed/note.txt`: 5-15 lines: what was changed, the defect, why the property breaks, what it needs to manifest, what is not affected.
 
-Verify before finishing: (1) tests pass with the change, (2) demo exits 1 with the change, (3) `git stash` / `git checkout` to the unchanged tree: demo exits 0, then restore your change so that the worktree contains it when you finish.
+Verify before finishing: (1) tests pass with the change, (2) demo exits 1 with the change, (3) on the unchanged tree the demo exits 0: `git diff -- miasmx ply > /tmp/<your-worktree-name>.diff; git apply -R /tmp/<your-worktree-name>.diff; <run demo>; git apply /tmp/<your-worktree-name>.diff` (never `git stash`: the stash is shared by every worktree of the repository and other agents work in parallel), and the worktree contains your change when you finish.
 
 ## Changes earlier rounds already produced for this property (do not repeat these)
 
